@@ -74,7 +74,7 @@ func runC12(r *simkit.Run) {
 		runC12Diff(r)
 		return
 	}
-	w := newGovWorld(r, govParams{maxUniverse: 6, replicas: 1, smallThresh: false})
+	w := newGovWorld(r, govParams{maxUniverse: 9, replicas: 1, smallThresh: false})
 	ref := &valRef{r: r, configs: []cfgSpec{w.configs[0]}, started: map[int]bool{}, quorum: map[int]bool{}, identity: map[common.Address]string{}, genesis: map[string]int64{}}
 	for _, v := range w.chain.Genesis.Validators {
 		ref.genesis[string(v.PubKey.GetEd25519())] += v.Power
